@@ -25,30 +25,38 @@ def kms_case(trace_path, lineno):
     return "\n".join(keep)
 
 
+def kms_runs(ctx):
+    """build driver + harness, run the tier's traces; yields (name, trace path, summary, mismatch lines, monitor lines)"""
+    ok = ctx.build_driver("kms")
+    hx = ctx.build_go("hxkms")
+    if not (ok and hx):
+        return
+    if ctx.replay:
+        runs = [("replay", ["-mode", "replay", "-file", ctx.replay])]
+    else:
+        runs = [("corpus-" + os.path.basename(f), ["-mode", "replay", "-file", f])
+                for f in sorted(glob.glob(os.path.join(ROOT, "corpus", "C17", "*.txt")))]
+        if ctx.tier == "quick":
+            runs += [("exhaustive", ["-mode", "exhaustive", "-regions", "3"]),
+                     ("edge", ["-mode", "edge", "-cases", "1500"])]
+        else:
+            runs += [("exhaustive", ["-mode", "exhaustive", "-regions", "4"]),
+                     ("edge", ["-mode", "edge", "-cases", "40000"])]
+    for name, args in runs:
+        tr = os.path.join(ctx.work, name + ".trace")
+        if not ctx.run_harness(hx, args, tr): continue
+        summ, mism, mon = ctx.run_driver("kms", tr)
+        yield name, tr, summ, mism, mon
+
+
 def run(ctx):
     ctx.extract()
     ctx.prove(["AsherahVerif.Props.C17"])
     if ctx.tier == "thorough":
         ctx.leanchecker(["AsherahVerif.Props.C17"])
-    ok = ctx.build_driver("kms")
-    hx = ctx.build_go("hxkms")
     traces, c10 = [], {"fail_lines": 0, "dirty_plaintexts": 0, "first_case": None, "first": None}
-    if ok and hx:
-        if ctx.replay:
-            runs = [("replay", ["-mode", "replay", "-file", ctx.replay])]
-        else:
-            runs = [("corpus-" + os.path.basename(f), ["-mode", "replay", "-file", f])
-                    for f in sorted(glob.glob(os.path.join(ROOT, "corpus", "C17", "*.txt")))]
-            if ctx.tier == "quick":
-                runs += [("exhaustive", ["-mode", "exhaustive", "-regions", "3"]),
-                         ("edge", ["-mode", "edge", "-cases", "1500"])]
-            else:
-                runs += [("exhaustive", ["-mode", "exhaustive", "-regions", "4"]),
-                         ("edge", ["-mode", "edge", "-cases", "40000"])]
-        for name, args in runs:
-            tr = os.path.join(ctx.work, name + ".trace")
-            if not ctx.run_harness(hx, args, tr): continue
-            summ, mism, mon = ctx.run_driver("kms", tr)
+    if True:
+        for name, tr, summ, mism, mon in kms_runs(ctx):
             traces.append((name, summ))
             ctx.cov["evaluations"] += summ.get("ops", 0)
             ctx.cov["traces_validated_against_impl"] += summ.get("cases", 0)
